@@ -127,6 +127,19 @@ func (st *State) hasSuffix(s, suf *Term) bool {
 		return strings.HasSuffix(s.CS, suf.CS)
 	}
 	if !suf.Const {
+		// syntactic tail: the parts of suf are the last parts of s
+		sp, fp := strParts(s), strParts(suf)
+		if len(fp) <= len(sp) {
+			same := true
+			for i := range fp {
+				if sp[len(sp)-len(fp)+i].S != fp[i].S {
+					same = false
+				}
+			}
+			if same {
+				return true
+			}
+		}
 		return st.Branch(StrSuffixOf(suf, s))
 	}
 	if d := st.sufDecomp[s.S]; d != nil && strings.HasSuffix(d.sep, suf.CS) {
@@ -155,6 +168,18 @@ func (st *State) hasPrefix(s, pre *Term) bool {
 		return strings.HasPrefix(s.CS, pre.CS)
 	}
 	if !pre.Const {
+		sp, fp := strParts(s), strParts(pre)
+		if len(fp) <= len(sp) {
+			same := true
+			for i := range fp {
+				if sp[i].S != fp[i].S {
+					same = false
+				}
+			}
+			if same {
+				return true
+			}
+		}
 		return st.Branch(StrPrefixOf(pre, s))
 	}
 	if d := st.preDecomp[s.S]; d != nil && strings.HasPrefix(d.sep, pre.CS) {
@@ -195,7 +220,19 @@ func (st *State) trimSuffix(s, suf *Term) *Term {
 		last := StrT(strings.TrimSuffix(s.Parts[n-1].CS, suf.CS))
 		return concatParts(append(append([]*Term(nil), s.Parts[:n-1]...), last))
 	}
-	return StrSubstr(s, IntT64(0), IntSub(st.strLen(s), st.strLen(suf)))
+	sp, fp := strParts(s), strParts(suf)
+	if len(fp) <= len(sp) {
+		same := true
+		for i := range fp {
+			if sp[len(sp)-len(fp)+i].S != fp[i].S {
+				same = false
+			}
+		}
+		if same {
+			return concatParts(sp[:len(sp)-len(fp)])
+		}
+	}
+	return st.substr(s, IntT64(0), IntSub(st.strLen(s), st.strLen(suf)))
 }
 
 func (st *State) trimPrefix(s, pre *Term) *Term {
@@ -215,7 +252,19 @@ func (st *State) trimPrefix(s, pre *Term) *Term {
 		first := StrT(strings.TrimPrefix(s.Parts[0].CS, pre.CS))
 		return concatParts(append([]*Term{first}, s.Parts[1:]...))
 	}
-	return StrSubstr(s, st.strLen(pre), st.strLen(s))
+	sp, fp := strParts(s), strParts(pre)
+	if len(fp) <= len(sp) {
+		same := true
+		for i := range fp {
+			if sp[i].S != fp[i].S {
+				same = false
+			}
+		}
+		if same {
+			return concatParts(sp[len(fp):])
+		}
+	}
+	return st.substr(s, st.strLen(pre), st.strLen(s))
 }
 
 func concatParts(ps []*Term) *Term {
